@@ -53,7 +53,7 @@ ASSUMPTIONS = [
     "a request is 'in a form the link-layer interface accepts' iff netqasm.qlink_compat.request_to_qlink_1_0 converts it",
 ]
 PROBES = ["type-K", "type-M", "type-R", "role-create", "role-recv", "max_time-set", "rotations-set", "named-basis",
-          "random-basis-set", "with-info", "pairs>=2", "two-calls-same-socket", "three-remote-nodes"]
+          "random-basis-set", "with-info", "keep-sequential-post-routine", "pairs>=2", "two-calls-same-socket", "three-remote-nodes"]
 
 GHOSTS = {"g7": 7, "g8": 8, "g9": 9}
 KINDS = ["create_keep", "create_keep_info", "create_measure", "create_rsp", "recv_keep", "recv_keep_info",
@@ -75,7 +75,15 @@ def gen_calls(ch: Choices, avoid: set, calm: bool) -> List[Dict[str, Any]]:
             kind = "create_measure"
             c["kind"] = kind
             keeps = False
-        c["number"] = 1 + ch.draw(min(3, room) if keeps else 3, "number")
+        # with-info keeps may be sequential with a post routine that consumes each pair (one virtual ID, re-used per
+        # pair: a response may then arrive while the previous pair still occupies it)
+        if kind in ("create_keep_info", "recv_keep_info") and room >= 1 and not calm and ch.flag(1, 3, "sequential"):
+            c["sequential"] = True
+            c["number"] = 1 + ch.draw(3, "number")
+            used_keep += 1
+            keeps = False
+        else:
+            c["number"] = 1 + ch.draw(min(3, room) if keeps else 3, "number")
         if keeps:
             used_keep += c["number"]
         if kind.startswith("create"):
@@ -97,6 +105,9 @@ def gen_calls(ch: Choices, avoid: set, calm: bool) -> List[Dict[str, Any]]:
                 if kind == "create_measure" and ch.flag(1, 2, "rbr"):
                     c["random_basis_remote"] = ch.pick([b.name for b in RandomBasis])
         calls.append(c)
+    # sequential keeps go last: their handle occupies the lowest free ID without the qubit staying allocated, and the
+    # plain receive paths' corrections address virtual qubit 0 (C10's recorded finding) -- which must then exist
+    calls.sort(key=lambda c: 1 if c.get("sequential") else 0)
     return calls
 
 
@@ -199,6 +210,14 @@ def run(ch: Choices, opts: Dict[str, Any]) -> Dict[str, Any]:
                 kw[k] = RandomBasis[c[k]]
         return kw
 
+    def make_post(conn, n):
+        outcomes = conn.new_array(n)
+
+        def post(c2, q, pair):
+            q.measure(future=outcomes.get_future_index(pair))
+        bump(probes, "keep-sequential-post-routine")
+        return post
+
     def host_task():
         conn = SimConnection("app", node, max_qubits=5, hardware_config=GenericHardwareConfig(5),
                              epr_sockets=list(socks.values()))
@@ -211,6 +230,12 @@ def run(ch: Choices, opts: Dict[str, Any]) -> Dict[str, Any]:
             try:
                 if kind == "create_keep":
                     r = ("qubits", s.create_keep(**kw), None)
+                elif kind == "create_keep_info" and c.get("sequential"):
+                    q, info = s.create_keep_with_info(sequential=True, post_routine=make_post(conn, c["number"]), **kw)
+                    r = ("qubits", q, info)
+                elif kind == "recv_keep_info" and c.get("sequential"):
+                    q, info = s.recv_keep_with_info(number=c["number"], sequential=True, post_routine=make_post(conn, c["number"]))
+                    r = ("qubits", q, info)
                 elif kind == "create_keep_info":
                     q, info = s.create_keep_with_info(**kw)
                     r = ("qubits", q, info)
@@ -371,7 +396,7 @@ def run(ch: Choices, opts: Dict[str, Any]) -> Dict[str, Any]:
                 chk("bell_state", ei.bell_state.value, bell)
                 if q.remote_entangled_node != c["peer"]:
                     chk("remote_entangled_node", q.remote_entangled_node, c["peer"])
-                if um[q.qubit_id] != r.logical_qubit_id:
+                if not c.get("sequential") and um[q.qubit_id] != r.logical_qubit_id:
                     chk("mapped-physical-qubit", um[q.qubit_id], r.logical_qubit_id)
                 if infos is not None:
                     inf = infos[i]
